@@ -267,7 +267,7 @@ class RealEng:
             if o[0] == "loadsd":
                 self.pe.accountant.load_state_dict(self.sd)
                 return self.obs()
-        except (ValueError, IndexError) as e:
+        except Exception as e:  # noqa: BLE001 - whatever the implementation raises is an outcome to compare
             return map_err(e)
         raise ValueError(op)
 
@@ -275,11 +275,17 @@ class RealEng:
         """fresh engine/model/optimizer/schedulers from the same configuration, then load_checkpoint;
         on success the fresh objects replace the current ones (same noise generator state)"""
         f = RealEng(self.cfg, mech=mech)
+        if getattr(self, "carry_live", None):
+            # the user carries the live (sigma, C) next to the checkpoint: written into the fresh optimizer after the
+            # schedulers were constructed, before load_checkpoint
+            f.opt.noise_multiplier, f.opt.max_grad_norm = self.carry_live
         ret = f.pe.load_checkpoint(path=io.BytesIO(blob), module=f.model, optimizer=f.opt,
                                    noise_scheduler=f.nsched, grad_clip_scheduler=f.csched)
         if self.gen_state is not None:
             f.gen.set_state(self.gen_state)
         keep = (self.saved, self.gen_state, self.sd)
+        f.__dict__.pop("carry_live", None)
+        self.__dict__.pop("carry_live", None)
         self.__dict__.update(f.__dict__)
         self.saved, self.gen_state, self.sd = keep
         self.ret = ret
